@@ -47,6 +47,13 @@ def main():
     if st.strip():
         print("refusing: /repo dirty"); return 2
     res = {}
+    # EVIDENCE-BACKUP: runs on a changed tree must not leave their evidence files behind
+    evdir = os.path.join(VERIF, "evidence")
+    evbak = os.path.join(VERIF, ".work", "evidence-backup-%d" % os.getpid())
+    shutil.rmtree(evbak, ignore_errors=True)
+    shutil.copytree(evdir, evbak)
+    import atexit
+    atexit.register(lambda: (shutil.rmtree(evdir, ignore_errors=True), shutil.copytree(evbak, evdir), shutil.rmtree(evbak, ignore_errors=True)))
     try:
         rc, o = sh("git -C /repo apply " + os.path.join(out, "patch.diff"))
         if rc != 0:
